@@ -435,7 +435,7 @@ func applyDurable(op *dirOp, mode int) {
 	}
 }
 
-// syncDir makes every pending operation that touches d durable, together with every
+// syncDir makes every pending operation on entries of d durable, together with every
 // earlier pending operation on the same (directory, name) keys (a journal commits
 // dependencies first).
 func (f *FS) syncDir(d *inode) {
@@ -443,7 +443,10 @@ func (f *FS) syncDir(d *inode) {
 	need := map[nameKey]bool{}
 	for i := len(f.pend) - 1; i >= 0; i-- {
 		op := f.pend[i]
-		touch := op.dir == d || (op.kind == "rename" && op.srcDir == d)
+		// a rename belongs to its destination directory: fsync of the source directory alone does
+		// not make it durable (POSIX promises nothing else; a journalling file system may do
+		// better, the code under test must not rely on it). It stays atomic either way.
+		touch := op.dir == d
 		if !touch {
 			for _, k := range op.keys() {
 				if need[k] {
